@@ -329,6 +329,68 @@ where
         }
     }
 
+    /// Structural invariants of the skip list (verification hook): the level-0 chain is
+    /// strictly sorted by (score, member), every higher level is a sorted subsequence of
+    /// level 0 below `level`, nothing is linked above it, and `length`, the chain length
+    /// and the key index agree member by member.
+    #[cfg(ferrous_verif)]
+    pub fn verif_check_invariants(&self) -> std::result::Result<(), String> {
+        let inner = self.inner.read().unwrap();
+        let mut chain: Vec<*mut SkipListNode<K, V>> = Vec::new();
+        unsafe {
+            let mut cur = (&(*inner.head).forward)[0];
+            while let Some(p) = cur {
+                if chain.len() > inner.key_index.len() + 1_000_000 {
+                    return Err("level 0 chain does not terminate".into());
+                }
+                chain.push(p);
+                cur = (&(*p).forward)[0];
+            }
+            if chain.len() != inner.length {
+                return Err(format!("length {} but level-0 chain has {} nodes", inner.length, chain.len()));
+            }
+            if chain.len() != inner.key_index.len() {
+                return Err(format!("key index has {} entries but chain has {} nodes", inner.key_index.len(), chain.len()));
+            }
+            for w in chain.windows(2) {
+                let (a, b) = (&*w[0], &*w[1]);
+                let sorted = match a.value.partial_cmp(&b.value) {
+                    Some(Ordering::Less) => true,
+                    Some(Ordering::Equal) => a.key < b.key,
+                    _ => false,
+                };
+                if !sorted {
+                    return Err(format!("chain not strictly sorted at {:?}/{:?} -> {:?}/{:?}", a.key, a.value, b.key, b.value));
+                }
+            }
+            for p in &chain {
+                let n = &**p;
+                match inner.key_index.get(&n.key) {
+                    Some(v) if v.partial_cmp(&n.value) == Some(Ordering::Equal) => {}
+                    other => return Err(format!("index disagrees for {:?}: node {:?}, index {:?}", n.key, n.value, other)),
+                }
+            }
+            for lvl in 1..MAX_LEVEL {
+                let mut cur = (&(*inner.head).forward)[lvl];
+                if lvl > inner.level && cur.is_some() {
+                    return Err(format!("node linked at level {} above current level {}", lvl, inner.level));
+                }
+                let mut pos = 0usize;
+                while let Some(p) = cur {
+                    match chain[pos..].iter().position(|q| *q == p) {
+                        Some(off) => pos += off + 1,
+                        None => return Err(format!("level {} is not a subsequence of level 0", lvl)),
+                    }
+                    if (&(*p).forward).len() <= lvl {
+                        return Err(format!("node {:?} linked at level {} but has {} levels", (*p).key, lvl, (&(*p).forward).len()));
+                    }
+                    cur = (&(*p).forward)[lvl];
+                }
+            }
+        }
+        Ok(())
+    }
+
     /// Get all items in the skip list
     pub fn get_all_items(&self) -> Vec<(K, V)> {
         let inner = self.inner.read().unwrap();
